@@ -1,5 +1,4 @@
 import Driver.Loop
 import Driver.Smb
-import Driver.SmbDialects
 
-def main : IO Unit := Driver.run (Driver.Smb.entries ++ Driver.SmbDialects.entries)
+def main : IO Unit := Driver.run (Driver.Smb.entries)
